@@ -126,6 +126,90 @@ def dyHalf (x : Dyadic) : Dyadic := x >>> (1 : Int)
 /-- `(a + b) / 2` as SQLite computes it on doubles (the sum is rounded, halving is exact) -/
 def mid53 (a b : Dyadic) : Dyadic := dyHalf (round53 (a + b))
 
+/-! ### floats as Go parses and prints them, on the modelled domain -/
+
+/-- what `strconv.ParseFloat(s, 64)` makes of a stored text, as far as the model decides it -/
+inductive FParse where
+  | invalid                 -- Go reports a syntax error
+  | val (d : Dyadic)        -- Go returns exactly this number
+  | unknown                 -- outside the modelled domain (exponents, hex floats, inf/nan, underscores,
+                            -- decimals that are not exactly representable, negative zero)
+deriving DecidableEq
+
+def isOneOf (cs : List UInt8) (c : UInt8) : Bool := cs.contains c
+
+/-- bytes that occur in some text `strconv.ParseFloat` accepts -/
+def floatAlphabet (c : UInt8) : Bool :=
+  isDigit c || isOneOf "+-.eExXpP_abcdfABCDFiInNtTyY".toUTF8.toList c
+
+def pow5 (k : Nat) : Nat := 5 ^ k
+
+/-- odd part of a positive natural number -/
+def oddPart (n : Nat) : Nat :=
+  if h : n = 0 then 0 else if n % 2 = 0 then oddPart (n / 2) else n
+termination_by n
+decreasing_by omega
+
+/-- `[+-]? ( D+ ( . D* )? | . D+ )`: sign, integer digits, fraction digits -/
+def plainDecimal (b : Bytes) : Option (Bool × Bytes × Bytes) :=
+  let (neg, r) := match b with
+    | 45 :: r => (true, r)
+    | 43 :: r => (false, r)
+    | r => (false, r)
+  let ip := r.takeWhile isDigit
+  let rest := r.dropWhile isDigit
+  match rest with
+  | [] => if ip.isEmpty then none else some (neg, ip, [])
+  | 46 :: fr =>
+    if fr.all isDigit && !(ip.isEmpty && fr.isEmpty) then some (neg, ip, fr) else none
+  | _ => none
+
+def parseFloatDec (b : Bytes) : FParse :=
+  if !b.all floatAlphabet then .invalid
+  else if b.all (fun c => isDigit c || c == 43 || c == 45 || c == 46) then
+    match plainDecimal b with
+    | none => .invalid
+    | some (neg, ip, fr) =>
+      let n := digitsVal (ip ++ fr) 0
+      let f := fr.length
+      if n % pow5 f != 0 then .unknown          -- not a dyadic rational
+      else
+        let m := n / pow5 f                     -- value = m / 2^f
+        if m == 0 then (if neg then .unknown else .val .zero)
+        else if oddPart m ≥ 2 ^ 53 then .unknown
+        else .val (Dyadic.ofIntWithPrec (if neg then -(m : Int) else m) f)
+  else if !b.any (isOneOf "xXiInN".toUTF8.toList) && b.any (isOneOf "abcdfABCDFtTyY".toUTF8.toList) then .invalid
+  else .unknown
+
+/-- `core.Value.Float`: empty text counts as zero -/
+def valueFloat (b : Bytes) : FParse := if b.isEmpty then .val .zero else parseFloatDec b
+
+def stripTrailingZeros (n : Nat) : Nat :=
+  if h : n = 0 then 0 else if n % 10 = 0 then stripTrailingZeros (n / 10) else n
+termination_by n
+decreasing_by omega
+
+/-- `strconv.FormatFloat(x, 'f', -1, 64)` for a number whose decimal expansion has at most 15
+significant digits (then the shortest text that reads back as `x` is the exact expansion);
+`none` outside that domain. -/
+def formatFloatDec (x : Dyadic) : Option Bytes :=
+  match x with
+  | .zero => some [48]
+  | .ofOdd n k _ =>
+    let sign : Bytes := if n < 0 then [45] else []
+    if k ≤ 0 then
+      let N := n.natAbs * 2 ^ (-k).toNat
+      if (natDigits (stripTrailingZeros N)).length ≤ 15 then some (sign ++ natDigits N) else none
+    else
+      let kk := k.toNat
+      let ds := natDigits (n.natAbs * pow5 kk)      -- value = this / 10^k, last digit is 5
+      if ds.length > 15 then none
+      else if ds.length ≤ kk then
+        some (sign ++ [48, 46] ++ List.replicate (kk - ds.length) 48 ++ ds)
+      else
+        some (sign ++ ds.take (ds.length - kk) ++ [46] ++ ds.drop (ds.length - kk))
+
+
 /-! ### small list helpers -/
 
 def insertSortedBy {α} (lt : α → α → Bool) (x : α) : List α → List α
